@@ -153,6 +153,12 @@ impl WalFileWriter for ScriptedWriter {
         };
         let f = file_seq(&self.name);
         let res = match fault.as_deref() {
+            // the file was deleted under the writer (an unlinked file still accepts writes; they go nowhere)
+            _ if !g.files.contains_key(&self.name) => {
+                self.size += data.len() as u64;
+                g.log.push(json!({"a": "append", "f": f, "kind": kind, "w": w, "res": "ok", "unlinked": true, "call": idx}));
+                Ok(self.size)
+            }
             None => {
                 let name = self.name.clone();
                 let file = g.files.get_mut(&name).unwrap();
@@ -246,6 +252,7 @@ impl WalStore for ScriptedWalStore {
         g.files.remove(name);
         let f = file_seq(name);
         g.log.push(json!({"a": "delete", "f": f}));
+        g.after_call();
         Ok(())
     }
     fn exists(&self, name: &str) -> Result<bool, WalError> {
@@ -406,6 +413,120 @@ fn run_restart_scenario(run: usize, stray: &str, n1: u64, n2: u64, cap: usize, o
     }
 }
 
+/// WalPolicy.tla binding: one life of the real actor under any fsync policy with SyncTick, TruncateUpTo and
+/// graceful Shutdown messages between the writes.  ops: "w" next writer (stamp ts[w]), "k" tick followed by a
+/// barrier (paused time: a sleep returns only when the actor has drained its mailbox), "t<i>" truncation up to
+/// th[i] (no barrier: it stays in the mailbox among the writes), "y" barrier only.
+fn run_policy_scenario(run: usize, scn: &Value, out: &mut Out) {
+    let cap = scn["cap"].as_u64().unwrap_or(2) as usize;
+    let batch = scn["batch"].as_u64().unwrap_or(2) as usize;
+    let policy = scn["policy"].as_str().unwrap_or("everysec").to_string();
+    let ops: Vec<String> = scn["ops"].as_array().unwrap().iter().map(|o| o.as_str().unwrap().to_string()).collect();
+    let ts: Vec<u64> = scn["ts"].as_array().unwrap().iter().map(|t| t.as_u64().unwrap()).collect();
+    let th: Vec<u64> = scn["th"].as_array().map(|a| a.iter().map(|t| t.as_u64().unwrap()).collect()).unwrap_or_default();
+    let mut script = HashMap::new();
+    for f in scn["faults"].as_array().cloned().unwrap_or_default() {
+        script.insert(f[0].as_u64().unwrap() as usize, f[1].as_str().unwrap().to_string());
+    }
+    let nw = ops.iter().filter(|o| o.as_str() == "w").count();
+    let store = ScriptedWalStore::new(script, true);
+    let stamp = |w: usize| ts[(w - 1) % ts.len()];
+    let deltas: Vec<Arc<ReplicationDelta>> = (1..=nw).map(|w| Arc::new(make_delta(w as u64, stamp(w), 4))).collect();
+    let mut esize = 0;
+    {
+        let mut g = store.inner.lock().unwrap();
+        for w in 1..=nw {
+            let enc = WalEntry::from_delta(&deltas[w - 1], stamp(w)).unwrap().encode();
+            esize = enc.len();
+            g.registry.insert(enc, w as u64);
+        }
+    }
+    let config = WalConfig {
+        enabled: true,
+        wal_dir: "/nonexistent".into(),
+        fsync_policy: match policy.as_str() { "always" => FsyncPolicy::Always, "no" => FsyncPolicy::No, _ => FsyncPolicy::EverySecond },
+        max_file_size: 16 + cap * esize.max(1),
+        group_commit_max_entries: batch,
+        group_commit_max_wait: Duration::from_micros(200),
+        truncation_check_interval: Duration::from_secs(3600),
+    };
+    let tsmap: Vec<u64> = (1..=nw).map(stamp).collect();
+    out.emit(&json!({"a": "reset", "run": run, "policy": policy, "ts": tsmap, "scn": scn}));
+    let rt = tokio::runtime::Builder::new_current_thread().enable_all().start_paused(true).build().unwrap();
+    let st2 = store.clone();
+    let res = catch(|| {
+        rt.block_on(async move {
+            let (handle, task) = spawn_wal_actor(st2.clone(), config).unwrap();
+            let mut tasks = Vec::new();
+            let mut w = 0usize;
+            for op in &ops {
+                match op.as_str() {
+                    "w" => {
+                        w += 1;
+                        let (h, d, s, wid, t) = (handle.clone(), deltas[w - 1].clone(), st2.clone(), w, stamp(w));
+                        s.log(json!({"a": "send", "w": wid}));
+                        tasks.push(tokio::spawn(async move {
+                            let r = h.write_durable(d, t).await;
+                            s.log(json!({"a": "ack", "w": wid, "ok": r.is_ok(), "err": r.err().map(|e| e.to_string()).unwrap_or_default()}));
+                        }));
+                        tokio::task::yield_now().await;
+                    }
+                    "k" => {
+                        handle.sync_tick();
+                        tokio::time::sleep(Duration::from_millis(5)).await;
+                        st2.log(json!({"a": "tick"}));
+                    }
+                    "y" => tokio::time::sleep(Duration::from_millis(5)).await,
+                    t if t.starts_with('t') => {
+                        let i: usize = t[1..].parse().unwrap_or(1);
+                        let v = th.get(i - 1).copied().unwrap_or(0);
+                        st2.log(json!({"a": "truncreq", "t": v}));
+                        handle.truncate(v);
+                    }
+                    _ => {}
+                }
+            }
+            for t in tasks {
+                let _ = t.await;
+            }
+            handle.shutdown().await;
+            st2.log(json!({"a": "down"}));
+            let _ = task.await;
+        })
+    });
+    let mut g = store.inner.lock().unwrap();
+    for mut ev in std::mem::take(&mut g.log) {
+        ev["run"] = json!(run);
+        out.emit(&ev);
+    }
+    if let Err(p) = res {
+        out.emit(&json!({"a": "panic", "run": run, "msg": p}));
+    }
+}
+
+fn random_policy_scenario(rng: &mut impl Rng) -> Value {
+    let n = rng.gen_range(2..=14usize);
+    let mut ops = Vec::new();
+    for _ in 0..n {
+        ops.push(["w", "w", "w", "w", "k", "y", "t1", "t2", "t3"][rng.gen_range(0..9)]);
+    }
+    let ts: Vec<u64> = (0..12).map(|_| rng.gen_range(1..=30u64)).collect();
+    let mut th: Vec<u64> = (0..3).map(|_| rng.gen_range(1..=30u64)).collect();
+    if rng.gen_bool(0.5) {
+        th.sort();
+    }
+    let nf = [0, 0, 1, 1, 2][rng.gen_range(0..5)];
+    let mut faults = Vec::new();
+    for _ in 0..nf {
+        let idx = rng.gen_range(1..=(3 * n + 4));
+        let kind = ["fail", "torn", "diskfull", "fail"][rng.gen_range(0..4)];
+        faults.push(json!([idx, kind]));
+    }
+    let policy = ["always", "everysec", "everysec", "no"][rng.gen_range(0..4)];
+    json!({"policy": policy, "cap": rng.gen_range(1..=3), "batch": rng.gen_range(1..=4),
+           "ops": ops, "ts": ts, "th": th, "faults": faults})
+}
+
 fn random_scenario(rng: &mut impl Rng) -> Value {
     let nw = rng.gen_range(1..=8u64);
     let mut ws: Vec<u64> = (1..=nw).collect();
@@ -442,6 +563,25 @@ pub fn main(args: &[String]) -> i32 {
             for i in 0..a.usize("n", 100) {
                 let s = random_scenario(&mut rng);
                 run_actor_scenario(i + 1, &s, &mut out);
+            }
+            println!("{{\"events\": {}}}", out.finish());
+            0
+        }
+        Some("policy") => {
+            // vh wal policy [scenarios.ndjson] --seed S --n N --out trace : exported scenarios, then N random ones
+            let mut out = Out::create(&a.str("out", "wal_trace.ndjson"));
+            let mut run = 0;
+            if a.pos.len() > 1 {
+                for s in read_ndjson(&a.pos[1]).iter() {
+                    run += 1;
+                    run_policy_scenario(run, s, &mut out);
+                }
+            }
+            let mut rng = rng(a.u64("seed", 1));
+            for _ in 0..a.usize("n", 0) {
+                run += 1;
+                let s = random_policy_scenario(&mut rng);
+                run_policy_scenario(run, &s, &mut out);
             }
             println!("{{\"events\": {}}}", out.finish());
             0
